@@ -91,27 +91,36 @@ Proof.
 Qed.
 
 (* ---- names ---- *)
+Lemma name_stop_not_name : forallb (fun c => negb (name_char c)) name_stop = true.
+Proof. vm_compute. reflexivity. Qed.
+
 Lemma name_char_stop c x : name_char x = true -> In c name_stop -> (x =? c) = false.
 Proof.
-  unfold name_char. intros H Hin. apply andb_true_iff in H as [_ H].
-  apply negb_true_iff in H.
-  destruct (x =? c) eqn:E; [|reflexivity]. apply N.eqb_eq in E. subst x.
-  assert (Hex : existsb (N.eqb c) name_stop = true).
-  { apply existsb_exists. exists c. split; [exact Hin|apply N.eqb_refl]. }
-  congruence.
+  intros H Hin. destruct (x =? c) eqn:E; [|reflexivity]. apply N.eqb_eq in E. subst x.
+  pose proof name_stop_not_name as Hs. rewrite forallb_forall in Hs.
+  specialize (Hs c Hin). rewrite H in Hs. discriminate.
+Qed.
+
+Lemma name_start_char c : name_start c = true -> name_char c = true.
+Proof. unfold name_start, name_char. now intros ->. Qed.
+
+Lemma name_ok_chars s : name_ok s = true -> forallb name_char s = true.
+Proof.
+  destruct s as [|x r]; [discriminate|]. cbn [name_ok forallb]. intros H.
+  apply andb_true_iff in H as [Hx Hr]. now rewrite (name_start_char x Hx), Hr.
 Qed.
 
 Lemma name_ok_nochar c s : name_ok s = true -> In c name_stop -> nochar c s = true.
 Proof.
-  intros H Hin. unfold name_ok in H. destruct s as [|x s]; [discriminate|].
+  intros H Hin. apply name_ok_chars in H.
   unfold nochar. rewrite forallb_forall in H |- *. intros y Hy.
   now rewrite (name_char_stop c y (H y Hy) Hin).
 Qed.
 
 Lemma name_ok_head s : name_ok s = true -> exists x r, s = x :: r /\ name_char x = true.
 Proof.
-  destruct s as [|x r]; [discriminate|]. cbn [name_ok forallb]. intros H.
-  apply andb_true_iff in H as [H _]. now exists x, r.
+  destruct s as [|x r]; [discriminate|]. cbn [name_ok]. intros H.
+  apply andb_true_iff in H as [H _]. exists x, r. split; [reflexivity|now apply name_start_char].
 Qed.
 
 Ltac in_stop := unfold name_stop; cbn [In]; tauto.
